@@ -5,7 +5,7 @@ import GcArena.Model.Conv
   stdin: one query per line; stdout: exactly one answer line per input line.
 
     case <target> <chain> <placement> <schedule> <phase> <age>
-        target:    sized | array:<n> | slice:<n> | str:<n> | dyn | zst:<align> | zc:<align>:<maxalign>
+        target:    sized | array:<n> | slice:<n> | swh:<n> | str:<n> | dyn | zst:<align> | zc:<align>:<maxalign>
         chain:     `-` or step names joined by `,`:
                    copy erase erase_kind cast from_thin as_thin as_fat ptr ptr_kind thin_ptr unsize
                    downgrade upgrade stash
@@ -44,6 +44,8 @@ def parseTarget (s : String) : Option Target :=
   | ["dyn"] => some .dyn
   | ["array", n] => n.toNat?.map .array
   | ["slice", n] => n.toNat?.map .slice
+  -- `SliceWithHeader<u64, Elem>` (`SliceWithHeaderPtrMeta`, `Thin = u64`): as a slice for the model
+  | ["swh", n] => n.toNat?.map .slice
   | ["str", n] => n.toNat?.map .str
   | ["zst", a] => a.toNat?.map .zst
   | ["zc", a, m] =>
